@@ -6,6 +6,7 @@ import (
 	"go/types"
 	"strings"
 
+	"golibcheck/internal/bits"
 	"golibcheck/internal/core"
 	"golibcheck/internal/wire"
 )
@@ -266,12 +267,13 @@ var c05Packs = []string{"AbstractPack", "TagCountPack", "LogSinkPack", "TextPack
 func runC05(p *core.Program, r *core.Report) {
 	r.Explanation = "Layout conformance against an independent reference. For the common header and the eight listed packs a reference decoder was written by hand from the protocol layout (field order, widths, flags, version bytes, nested blob) in Go and is type-checked with the package as an in-memory overlay; each real writer is compared with its reference decoder by the lock-step wire-grammar walk over every joint path (kinds, order, constants via the reader's version checks, counts, field labels, presence conditions). The TCP frame is checked structurally: makeData emits Short(pack type)+body and then WriteHeader(10, 0, pack's pcode, Hash64Str(per-send license or client license)) built from a fresh option struct; WriteHeader re-emits Byte Byte Long Long IntBytes(previous buffer) in that argument order. Hash64 is the stated table-driven CRC variant (bit-level step, init, final; table = IEEE reflected CRC-32 table regenerated by the checker)."
 	r.NotDecided = []string{"byte-for-byte equality for concrete values (follows from layout + C01, not executed)", "whether the hand-written reference is what the real collector expects (frozen from the reviewed writers and the Java field comments)", "meter sub-sections of CounterPack1 are delegated to the library's own meter readers (their agreement is a C03 obligation), except the caller-POID meter"}
-	r.Assumptions = []string{"io primitive layouts (C01)", "value codec (C02)"}
+	r.Assumptions = []string{"fixed-width io primitive layouts (C01.pack)", "value codec (C02)"}
 	x := wire.NewExtractor(p)
 	r.Rule("C05.bodies", "writer of the header and of each listed pack agrees with the hand-written reference decoder on every joint path", 9)
 	r.Rule("C05.fields", "each position carries the field the reference names", 9)
 	r.Rule("C05.countlink", "repetitions are driven by the count the reference expects", 9)
 	r.Rule("C05.frame", "makeData: Short(type)+body, then WriteHeader(10,0,pcode,Hash64Str(license in effect)) from a fresh option struct; WriteHeader = Byte Byte Long Long IntBytes(prev)", 6)
+	r.Rule("C05.encodings", "variable-length decimal classes (tag k + k big-endian bytes, shortest class) and blob/text length classes (<=253 / 255+u16 / 254+i32) are the protocol's", 20)
 	r.Rule("C05.crc", "Hash64 is the table-driven CRC variant: init all-ones, step (acc>>8)^sext32(T[(acc^b)&0xff]), final complement; table = IEEE CRC-32", 259)
 
 	var pairs []codecPair
@@ -300,7 +302,11 @@ func runC05(p *core.Program, r *core.Report) {
 	}
 	runPairs(p, x, r, pairs, pairRules{"C05.bodies", "C05.fields", "C05.countlink"}, 6)
 
-	c05Frame(p, r)
+	c05Frame(p, r, "C05.frame", false)
+	// the variable-length encodings the bodies are made of (same rules as C01, reported under C05:
+	// a changed length class changes the bytes of every pack that carries such a field)
+	c01Decimal(p, r, &bits.Interp{P: p}, "C05.encodings")
+	c01Blob(p, r, "C05.encodings")
 	checkCRCTable(p, r, "C05.crc")
 	checkCRCFunc(p, r, "C05.crc", "util/hash", "Hash64", 64, true)
 	// Hash64Str(s) = Hash64([]byte(s))
@@ -320,10 +326,14 @@ func runC05(p *core.Program, r *core.Report) {
 }
 
 // c05Frame: structural rule over makeData and WriteHeader.
-func c05Frame(p *core.Program, r *core.Report) {
+// c05Frame checks the TCP frame construction. It is shared with C06 (rule id given by the caller):
+// with optsOnly it decides only the license-in-effect clauses (fresh per-send option struct, header
+// license selection).
+func c05Frame(p *core.Program, r *core.Report, rule string, optsOnly bool) {
 	wh := p.Method("io", "DataOutputX", "WriteHeader")
-	if wh == nil {
-		r.Undec("C05.frame", "io.(*DataOutputX).WriteHeader", "-", "not found")
+	if optsOnly {
+	} else if wh == nil {
+		r.Undec(rule, "io.(*DataOutputX).WriteHeader", "-", "not found")
 	} else {
 		info := wh.Pkg.TypesInfo
 		var params []string
@@ -362,12 +372,12 @@ func c05Frame(p *core.Program, r *core.Report) {
 			want = fmt.Sprintf("Byte(%s) Byte(%s) Long(%s) Long(%s) IntBytes(t)", params[0], params[1], params[2], params[3])
 		}
 		got := strings.Join(seq, " ")
-		r.Check(copied && got == want && want != "", "C05.frame", "io.(*DataOutputX).WriteHeader layout", p.Pos(wh.Decl.Pos()),
+		r.Check(copied && got == want && want != "", rule, "io.(*DataOutputX).WriteHeader layout", p.Pos(wh.Decl.Pos()),
 			"copies the body, resets, then "+want, fmt.Sprintf("header is emitted as %q (body copied before reset: %v); want %q", got, copied, want))
 	}
 	md := p.Method("net/oneway", "OneWayTcpClient", "makeData")
 	if md == nil {
-		r.Undec("C05.frame", "net/oneway.(*OneWayTcpClient).makeData", "-", "not found")
+		r.Undec(rule, "net/oneway.(*OneWayTcpClient).makeData", "-", "not found")
 		return
 	}
 	info := md.Pkg.TypesInfo
@@ -406,7 +416,7 @@ func c05Frame(p *core.Program, r *core.Report) {
 			return true
 		})
 	}
-	r.Check(optObj != nil && fresh, "C05.frame", "net/oneway.makeData per-send options", pos, "options are applied to a fresh zero-valued struct on every send",
+	r.Check(optObj != nil && fresh, rule, "net/oneway.makeData per-send options", pos, "options are applied to a fresh zero-valued struct on every send",
 		"the per-send options are not applied to a fresh struct created in makeData: a license override of one send can leak into later sends")
 	// 2. body: Short(p.GetPackType()) then p.Write(dout) before any WriteHeader
 	var events []string
@@ -438,16 +448,18 @@ func c05Frame(p *core.Program, r *core.Report) {
 			okBody = false
 		}
 	}
-	r.Check(okBody, "C05.frame", "net/oneway.makeData body", pos, "Short(pack type), pack body, then the header", fmt.Sprintf("stream events are %v; want Short(p.GetPackType()), p.Write, WriteHeader", events))
+	if !optsOnly {
+		r.Check(okBody, rule, "net/oneway.makeData body", pos, "Short(pack type), pack body, then the header", fmt.Sprintf("stream events are %v; want Short(p.GetPackType()), p.Write, WriteHeader", events))
+	}
 	// 3. header arguments
 	if len(headers) != 2 {
-		r.Viol("C05.frame", "net/oneway.makeData header calls", pos, fmt.Sprintf("%d WriteHeader calls; want one for the per-send license and one for the client default", len(headers)))
+		r.Viol(rule, "net/oneway.makeData header calls", pos, fmt.Sprintf("%d WriteHeader calls; want one for the per-send license and one for the client default", len(headers)))
 		return
 	}
 	lic := map[string]bool{}
 	for _, h := range headers {
 		if len(h.Args) != 4 {
-			r.Viol("C05.frame", "net/oneway.makeData header args", p.Pos(h.Pos()), "WriteHeader does not take four arguments")
+			r.Viol(rule, "net/oneway.makeData header args", p.Pos(h.Pos()), "WriteHeader does not take four arguments")
 			continue
 		}
 		a0, ok0 := constIntOf(info, h.Args[0])
@@ -460,7 +472,7 @@ func c05Frame(p *core.Program, r *core.Report) {
 		}
 		lic[src] = true
 		c := "net/oneway.makeData header(" + src + ")"
-		r.Check(okc && okp && src != "", "C05.frame", c, p.Pos(h.Pos()), "WriteHeader(10, 0, p.GetPCODE(), Hash64Str("+src+"))",
+		r.Check(okc && okp && src != "", rule, c, p.Pos(h.Pos()), "WriteHeader(10, 0, p.GetPCODE(), Hash64Str("+src+"))",
 			fmt.Sprintf("header arguments are (%s, %s, %s, %s); want (10, 0, p.GetPCODE(), Hash64Str(<license in effect>)) computed at send time", types.ExprString(h.Args[0]), types.ExprString(h.Args[1]), types.ExprString(h.Args[2]), types.ExprString(h.Args[3])))
 	}
 	optName := ""
@@ -490,7 +502,7 @@ func c05Frame(p *core.Program, r *core.Report) {
 		}
 		return true
 	})
-	r.Check(guardOK && lic[optName+".License"] && lic["this.License"], "C05.frame", "net/oneway.makeData license selection", pos,
+	r.Check(guardOK && lic[optName+".License"] && lic["this.License"], rule, "net/oneway.makeData license selection", pos,
 		"per-send license when non-empty, else the client's", "the license hashed into the header is not selected as: per-send override if non-empty, otherwise the client's current License")
 }
 
